@@ -19,6 +19,7 @@ PIPES["boundsclone"] = bounds_pipe
 def run(ctx, verdict):
     cfg = "GeomOps_C16_quick.cfg" if ctx.quick else "GeomOps_C16_thorough.cfg"
     # design laws of the storage notion the clone rule uses (Go slice ranges, append in place / elsewhere)
+    vlib.tlapm(ctx, "StorageProofs", ["Storage"])      # Meet = a common address, symmetric, views (TLAPS, all integer addresses)
     r = vlib.tlc(ctx, "StorageModel", "StorageModel.cfg", workers=2, name="StorageModel")
     ctx.states += r["distinct"]
     ctx.transitions += r["generated"]
